@@ -194,10 +194,15 @@ def c10_jobs(tier):
     # kmerindex.MinKmerLen so that the table has 4^k+1 = 17 or 65 cells (k=4 is reached by VerifC10_ForEach/Bits)
     idx = [(2, 3, 1), (2, 4, 0)] if tier == "quick" else [(2, 3, 1), (2, 4, 0), (2, 4, 1), (2, 5, 0), (3, 4, 0), (3, 5, 0)]
     for (k, n, chk) in idx:
-        jobs.append({"pkgdir": "index/kmerindex", "func": "VerifC10_Index", "params": {"k": k, "n": n, "wsplit": 0, "check": chk},
+        jobs.append({"pkgdir": "index/kmerindex", "func": "VerifC10_Index", "params": {"k": k, "n": n, "wsplit": 0, "check": chk, "symmask": -1},
                      "timeout_s": 500 if tier == "quick" else 3000})
+    # the real word sizes (k >= 4): a fixed scrambled sequence over a,c,g,t,n in both cases with the letters of `mask` symbolic
+    for (k, n, chk, mask) in ([(4, 14, 0, 4), (5, 20, 0, 1024), (4, 16, 1, 36)] if tier == "quick" else
+                              [(4, 14, 0, 4), (5, 20, 0, 1024), (4, 16, 1, 36), (6, 24, 0, 2048), (4, 18, 1, 16512), (5, 22, 1, 4100)]):
+        jobs.append({"pkgdir": "index/kmerindex", "func": "VerifC10_Index", "params": {"k": k, "n": n, "wsplit": 0, "check": chk, "symmask": mask},
+                     "timeout_s": 900 if tier == "quick" else 3000})
     for n in ([5, 6] if tier == "quick" else [5, 6, 7, 8]):
-        jobs.append({"pkgdir": "index/kmerindex", "func": "VerifC10_ForEach", "params": {"k": 4, "n": n}, "timeout_s": 1500})
+        jobs.append({"pkgdir": "index/kmerindex", "func": "VerifC10_ForEach", "params": {"k": 4, "n": n, "symmask": -1}, "timeout_s": 1500})
     for k in ([4, 5, 6, 9] if tier == "quick" else [4, 5, 6, 7, 8, 9, 10, 12]):
         jobs.append({"pkgdir": "index/kmerindex", "func": "VerifC10_Bits", "params": {"k": k, "concretegc": 0}, "floatsplit": True})
     jobs.append({"pkgdir": "index/kmerindex", "func": "VerifC10_Bits", "params": {"k": 2, "concretegc": 1}, "split_cap": 300})
@@ -209,7 +214,7 @@ CHECKS["C10"] = {
     "jobs": c10_jobs,
     "functions": ["kmerindex.{New,buildKmerTable,Build,KmerPositions,FingerAt,ForEachKmerOf,Check,KmerOf,Format,ComplementOf,GCof}", "util.Pow4"],
     "explanation": "letters symbolic over {a,c,g,t,n} x case, symbolic word w, symbolic sub-range; the finger/pos tables are written through symbolic indices; specification computed on the letter string",
-    "outside": "index tables for k >= 4 (65k-gate ite/adder networks per query: the build/positions harness runs at k = 2,3 through the exported MinKmerLen; k = 4 is covered for iteration and k = 4..10 for the bit identities), sequences longer than stated, the map-returning conveniences (KmerFrequencies, KmerIndex, StringKmerIndex), GCof as a float of a symbolic count (checked on its integer count; the float division only for k<=3 by case split)",
+    "outside": "all-symbolic index tables for k >= 4 (only sequences with one to three symbolic letters are indexed at k = 4..6) (65k-gate ite/adder networks per query: the build/positions harness runs at k = 2,3 through the exported MinKmerLen; k = 4 is covered for iteration and k = 4..10 for the bit identities), sequences longer than stated, the map-returning conveniences (KmerFrequencies, KmerIndex, StringKmerIndex), GCof as a float of a symbolic count (checked on its integer count; the float division only for k<=3 by case split)",
 }
 
 
@@ -560,7 +565,7 @@ def c14_jobs(tier):
            (4, 12, 2, 4, 30, 28, 1, 0, 139264), (3, 6, 1, 3, 18, 30, 0, 0, 536870976), (4, 8, 0, 1, 16, 20, 2, 0, 1057), (2, 5, 1, 2, 12, 20, 0, 0, 66)]
     if tier != "quick":
         tpl += [(4, 8, 0, 4, 24, 20, 3, 0, 2080), (4, 9, 1, 5, 20, 24, 0, 0, 65), (3, 7, 1, 3, 20, 18, 1, 0, 1028), (4, 10, 1, 6, 28, 22, 4, 0, 33),
-                (3, 6, 1, 2, 16, 14, 2, 72, 1040), (4, 8, 1, 2, 26, 28, 2, 0, 2236963), (3, 5, 0, 1, 14, 26, 0, 0, 33686018)]
+                (3, 6, 1, 2, 16, 14, 2, 72, 1040), (4, 8, 1, 2, 26, 28, 2, 0, 2228259), (3, 5, 0, 1, 14, 26, 0, 0, 33686018)]
     for (k, n, e, off, tl, ql, shift, tsym, qsym) in tpl:
         jobs.append({"pkgdir": "align/pals/filter", "func": "VerifC14_Template", "sched": "det", "fsmodel": True,
                      "params": {"k": k, "n": n, "e": e, "offset": off, "tlen": tl, "qlen": ql, "shift": shift, "tsym": tsym, "qsym": qsym},
